@@ -26,11 +26,12 @@ _IN = ["contracts.interpret"]
 _OV = ["contracts.overlay"]
 _LC = ["contracts.lifecycle"]
 _TF = ["contracts.transform"]
+_SP = ["contracts.selparse"]
 CONTRACT_MODULES = {
     "C12": ["contracts.c12"],
     "C04": ["contracts.c12"] + _RT + _TF,
     "C02": _RT + _OV + _IN + _TF, "C16": _RT + _TF + ["contracts.tags"], "C01": _RT + _TF + ["contracts.tags"], "C06": _TF,
-    "C03": _OV + _IN, "C07": _OV + _IN, "C11": _IN + _OV + _TF + ["contracts.tags"], "C05": _OV + _LC, "C09": _OV, "C17": _OV + _LC, "C10": _OV + _LC + _TF, "C14": _LC, "C18": _LC,
+    "C03": _OV + _IN, "C07": _OV + _IN, "C11": _IN + _OV + _TF + ["contracts.tags"] + _SP, "C05": _OV + _LC, "C09": _OV, "C17": _OV + _LC, "C10": _OV + _LC + _TF + _SP, "C14": _LC, "C18": _LC + _SP, "C15": _SP, "C13": _SP + ["contracts.c12"],
 }
 
 UNIT_WALL_BUDGET = {"quick": 150, "thorough": 600}
@@ -286,6 +287,11 @@ def main(argv):
                         f.write("# " + ln + "\n")
             except Exception as e:
                 reproduced = False
+        if script and not reproduced and u is not None and getattr(u, "replay_decides", False):
+            # the counterexample is a shape the real front end cannot produce (or the engine was imprecise): undecided
+            print(f"UNDECIDED unit={u.name} obligation={o['name']} reason=counterexample did not replay natively ({path})")
+            undecided.append({"unit": u.name, "obligation": o["name"], "reason": "counterexample did not replay natively"})
+            continue
         tail = "" if reproduced else " no-failing-input-found"
         lines.append(f"VIOLATION property={prop} replay={path}{tail}")
         exit_code = 1
